@@ -32,6 +32,12 @@ type Spec struct {
 	Probes func() []*Case
 	// ShrinkBudget bounds minimisation.
 	ShrinkBudget int
+	// WorkerProcs is GOMAXPROCS of the worker processes ("" = 2). tasksim pins
+	// it to 1: which P a goroutine runs on decides what a per-P cache
+	// (sync.Pool) returns, and that is not a choice the token scheduler makes.
+	WorkerProcs string
+	// SelfTestProcs are the GOMAXPROCS values of the determinism self-test.
+	SelfTestProcs []string
 	// Shrink, when set, replaces the generic shrinker.
 	Shrink func(c *Case, still func(*Case) bool, budget int) *Case
 	// Post runs once in the orchestrator after the workers (extra stages such
